@@ -46,7 +46,7 @@ def matrix_descs(ctx, sym, ferm, kind="general"):
                         if not d["sectors"]:
                             continue
                         idx += 1
-                        fill = ("rand", "rand", "rank1")[idx % 3]
+                        fill = ("rand", "rand", "rank1", "zerocol", "zeroblock")[idx % 5]
                         dtype = ("float64", "complex128")[(idx // 3) % 2]
                         yield dict(d, fill=(fill, idx), dtype=dtype, _pattern=pname)
     else:
@@ -234,6 +234,19 @@ def spectrum_failures(x, st=None):
             out.append(("svd/singular-values", f"returned {g} dense {r}"))
     except Exception as ex:
         out.append((f"svd/raised-{type(ex).__name__}", str(ex)))
+    # an array whose first stored block is real and whose other blocks are complex (what a + b gives for real a, sparse complex b)
+    if len(x.blocks) >= 2 and not any(np.asarray(b).dtype.kind == "c" for b in x.blocks.values()):
+        try:
+            a = x.copy() if not x.fermionic else x.phase_sync()
+            b = a * (0.5 + 1.5j)
+            del b.blocks[next(iter(a.blocks))]
+            m = a + b
+            nv = m.norm()
+            ref = float(np.sqrt(sum((np.abs(np.asarray(blk)) ** 2).sum() for blk in m.blocks.values())))
+            if abs(nv - ref) > 1e-10 * max(1.0, ref) or abs(getattr(nv, "imag", 0.0)) > 1e-12:
+                out.append(("norm/mixed-dtype", f"{nv} vs {ref} for blocks of dtypes {[str(np.asarray(blk).dtype) for blk in m.blocks.values()]}"))
+        except Exception as ex:
+            out.append((f"norm/mixed-dtype-raised-{type(ex).__name__}", str(ex)))
     for name, fn in (("norm", lambda: x.norm()), ("linalg.norm", lambda: sr.linalg.norm(x))):
         try:
             nv = fn()
